@@ -9,6 +9,7 @@ From M Require ArrayRoundTrip.
 From M Require ArrayReaders.
 From M Require EndToEnd.
 From M Require ParamBounds.
+From M Require ArrayRoundTrip64.
 From M Require ArrayRoundTrip.
 From M Require DecSpec.
 From M Require HdrSpec.
@@ -237,4 +238,16 @@ Theorem C05_parameter_window :
 Proof. exact (@ParamBounds.parameter_window). Qed.
 End T_parameter_window.
 Definition C05_parameter_window := @T_parameter_window.C05_parameter_window.
+
+Module T_read_uint_array64. Import ArrayRoundTrip64. Local Open Scope bool_scope. Local Open Scope Z_scope.
+Import LexModel LexBounds DecSpec MoreSpecs NumList SimpleSpecs ListWs ParserModel ParamList. Local Open Scope Z_scope.
+Local Open Scope Z_scope.
+Theorem C05_read_uint_array64 :
+  forall items n c m,
+  Forall uint_item64 items -> items <> [] -> at_item c items 0 -> tail_ok64 c -> n <> O ->
+  exists c', param_array n (array_reader 16) c m [] = (c', false, map value_of64 (firstn n items)) /\ (exists ic pos, c' = upd_in c ic pos) /\
+             at_item c' items (Nat.min n (length items)).
+Proof. exact (@ArrayRoundTrip64.read_uint_array64). Qed.
+End T_read_uint_array64.
+Definition C05_read_uint_array64 := @T_read_uint_array64.C05_read_uint_array64.
 
